@@ -250,3 +250,81 @@ func isAssemblerPtrField(p *core.Program, v ssa.Value) bool {
 	nt := namedOfType(pt.Elem())
 	return nt != nil && assemblerRole(p, nt)
 }
+
+// ---- method roles ----
+
+// isAssignShaped: an unexported method with the shape of an assign - one parameter, one result of type error - on a
+// receiver that plays an assembler role (bindnode's unsigned-integer entry point is such a method, whatever its name).
+func isAssignShaped(p *core.Program, fn *ssa.Function) bool {
+	if fn == nil || fn.Signature.Recv() == nil {
+		return false
+	}
+	sig := fn.Signature
+	if sig.Params().Len() != 1 || sig.Results().Len() != 1 || !core.IsErrorType(sig.Results().At(0).Type()) {
+		return false
+	}
+	rt := sig.Recv().Type()
+	if pt, ok := rt.(*types.Pointer); ok {
+		rt = pt.Elem()
+	}
+	nt := namedOfType(rt)
+	return nt != nil && assemblerRole(p, nt)
+}
+
+// assignMethodsOf lists the assign entry points of an assembler type: the exported Assign* methods of the
+// NodeAssembler interface it implements, plus unexported assign-shaped methods of the same receiver.
+func assignMethodsOf(p *core.Program, nt *types.Named, withNode bool) []*ssa.Function {
+	var out []*ssa.Function
+	ms := p.SSA.MethodSets.MethodSet(types.NewPointer(nt))
+	for i := 0; i < ms.Len(); i++ {
+		fn := p.SSA.MethodValue(ms.At(i))
+		if fn == nil || len(fn.Blocks) == 0 || fn.Synthetic != "" {
+			continue
+		}
+		name := ms.At(i).Obj().Name()
+		if ms.At(i).Obj().Exported() {
+			if len(name) > 6 && name[:6] == "Assign" && (withNode || name != "AssignNode") {
+				out = append(out, fn)
+			}
+			continue
+		}
+		if isAssignShaped(p, fn) {
+			out = append(out, fn)
+		}
+	}
+	return out
+}
+
+// isKindCheck: a static call of a same-module function that takes a datamodel.Kind among its parameters and returns
+// exactly an error: the kind-compatibility check of the reflection assembler.
+func isKindCheck(ci ssa.CallInstruction) bool {
+	g := ci.Common().StaticCallee()
+	if g == nil || g.Signature.Results().Len() != 1 || !core.IsErrorType(g.Signature.Results().At(0).Type()) {
+		return false
+	}
+	for i := 0; i < g.Signature.Params().Len(); i++ {
+		if nt := namedOfType(g.Signature.Params().At(i).Type()); nt != nil && nt.Obj().Name() == "Kind" && nt.Obj().Pkg() != nil && core.RelPkg(nt.Obj().Pkg().Path()) == "datamodel" {
+			return true
+		}
+	}
+	return false
+}
+
+// isValueMaterialiser: a method of an assembler that takes nothing and returns the reflect.Value to write into
+// (allocating the pointee of an optional/nullable slot on the way): calling it mutates the bound value.
+func isValueMaterialiser(p *core.Program, ci ssa.CallInstruction) bool {
+	g := ci.Common().StaticCallee()
+	if g == nil || g.Signature.Recv() == nil || g.Signature.Params().Len() != 0 || g.Signature.Results().Len() != 1 {
+		return false
+	}
+	rn := namedOfType(g.Signature.Results().At(0).Type())
+	if rn == nil || rn.Obj().Pkg() == nil || rn.Obj().Pkg().Path() != "reflect" || rn.Obj().Name() != "Value" {
+		return false
+	}
+	rt := g.Signature.Recv().Type()
+	if pt, ok := rt.(*types.Pointer); ok {
+		rt = pt.Elem()
+	}
+	nt := namedOfType(rt)
+	return nt != nil && assemblerRole(p, nt)
+}
